@@ -87,6 +87,33 @@ def entries():
     add("Twist3.Rx", 1, lambda a: L.Twist3.Rx(a[0]).S)
     add("Twist3.Ry", 1, lambda a: L.Twist3.Ry(a[0]).S)
     add("Twist3.Rz", 1, lambda a: L.Twist3.Rz(a[0]).S)
+    # the same vector arguments as tuples and as object / column arrays
+    add("transl/tuple", 3, lambda a: b.transl((a[0], a[1], a[2])))
+    add("transl/array", 3, lambda a: b.transl(np.array([a[0], a[1], a[2]], dtype=object if _anysym(a) else float)))
+    add("trotz/t-tuple", 4, lambda a: b.trotz(a[0], t=(a[1], a[2], a[3])))
+    add("eul2r/tuple", 3, lambda a: b.eul2r((a[0], a[1], a[2])))
+    add("skew/tuple", 3, lambda a: b.skew((a[0], a[1], a[2])))
+    add("skewa/tuple", 6, lambda a: b.skewa(tuple(a)))
+    add("delta2tr/tuple", 6, lambda a: b.delta2tr(tuple(a)))
+    add("cross/tuple", 6, lambda a: b.cross(tuple(a[:3]), tuple(a[3:])))
+    add("normsq/tuple", 3, lambda a: b.normsq((a[0], a[1], a[2])))
+    add("norm/list", 3, lambda a: b.norm([a[0], a[1], a[2]]))
+    add("SE3.Rx/t-tuple", 4, lambda a: L.SE3.Rx(a[0], t=(a[1], a[2], a[3])).A)
+    add("SE3.RPY/tuple", 3, lambda a: L.SE3.RPY((a[0], a[1], a[2])).A)
+    add("SE3.Eul/tuple", 3, lambda a: L.SE3.Eul((a[0], a[1], a[2])).A)
+    add("SE3.Rx/2", 2, lambda a: np.stack([np.asarray(x) for x in L.SE3.Rx([a[0], a[1]]).data]))
+    add("SE3.Tx/2", 2, lambda a: np.stack([np.asarray(x) for x in L.SE3.Tx((a[0], a[1])).data]))
+    # a scalar combined with a pose
+    add("op/SE3*s", 2, lambda a: L.SE3.Rx(a[0]) * a[1])
+    add("op/s*SE3", 2, lambda a: a[1] * L.SE3.Rx(a[0]))
+    add("op/SE3+s", 2, lambda a: L.SE3.Rx(a[0]) + a[1])
+    add("op/s+SE3", 2, lambda a: a[1] + L.SE3.Rx(a[0]))
+    add("op/SE3-s", 2, lambda a: L.SE3.Rx(a[0]) - a[1])
+    add("op/s-SE3", 2, lambda a: a[1] - L.SE3.Rx(a[0]))
+    add("op/SE3/s", 2, lambda a: L.SE3.Rx(a[0]) / (a[1] * a[1] + 1.5))
+    add("op/SO3*s/num", 1, lambda a: L.SO3.Rx(0.3) * a[0])
+    add("op/SE3*point/tuple", 3, lambda a: L.SE3.Rz(a[0]) * (a[1], a[2], 3.0))
+    add("op/SE3*point/sym", 3, lambda a: (L.SE3.Rz(0.4) * L.SE3.Tx(1.5)) * [a[0], a[1], a[2]])
     # pose operators on symbolic values
     add("op/SE3*SE3", 3, lambda a: (L.SE3.Rx(a[0]) * L.SE3.Tz(a[1]) * L.SE3.Ry(a[2])).A)
     add("op/SE3*inv", 2, lambda a: (L.SE3.Rx(a[0]) * L.SE3.Tx(a[1]) * (L.SE3.Rx(a[0]) * L.SE3.Tx(a[1])).inv()).A)
@@ -95,6 +122,11 @@ def entries():
     add("op/SO3*point", 1, lambda a: L.SO3.Rz(a[0]) * [1.0, 2.0, 3.0])
     add("op/SO3.inv", 1, lambda a: L.SO3.Rx(a[0]).inv().A)
     return E
+
+
+def _anysym(a):
+    import sympy
+    return any(isinstance(v, sympy.Expr) for v in a)
 
 
 def _trot2(th, x, y):
